@@ -12,6 +12,8 @@ Definition cs (k : N) : label := R_connect_start (N.to_nat k).
 Definition ca (k : N) : label := R_connack (N.to_nat k).
 Definition ib (k m : N) : label := B_inbound (N.to_nat k) m.
 Definition ih (k m h : N) : label := B_inbound_handle (N.to_nat k) m (hv h).  (* the handler called for m calls Handle(h) *)
+Definition qp (k m d : N) : label := B_q2_publish (N.to_nat k) m (negb (d =? 0)).  (* QoS 2 PUBLISH, d=1: DUP *)
+Definition qr (k m : N) : label := B_q2_release (N.to_nat k) m.                   (* its PUBREL *)
 Definition cr (k : N) : label := R_connect_return (N.to_nat k).
 Definition en (k : N) : label := R_end (N.to_nat k).
 
@@ -104,6 +106,11 @@ Example c17_check_selftest :
   c17_loop_model_ok ([uh 1; dl 0; sc 0; cb; cs 0; ca 0; ih 0 7 2; ib 0 8; en 0; dl 0; sc 1; cb; cs 1; ca 1; ih 1 9 0; ib 1 10],
                      [oh 0 7 1; oh 0 8 2; oh 1 9 2; od 1 10]) = true /\
   c17_loop_prop_ok ([uh 1; dl 0; sc 0; cb; cs 0; ca 0; ih 0 7 2; ib 0 8], [oh 0 7 1; oh 0 8 1]) = false /\
+  (* QoS 2: Handle between PUBLISH and PUBREL counts; DUP retransmission behind the next CONNACK is released *)
+  c17_loop_model_ok ([dl 0; sc 0; cb; cs 0; ca 0; qp 0 7 0; uh 1; qr 0 7; ib 0 8; qp 0 9 0; en 0; dl 0; sc 1; cb; cs 1; ca 1; qp 1 9 1; qr 1 9; ib 1 10],
+                     [oh 0 7 1; oh 0 8 1; oh 1 9 1; oh 1 10 1]) = true /\
+  c17_loop_prop_ok ([dl 0; sc 0; cb; cs 0; ca 0; qp 0 7 0; uh 1; qr 0 7; ib 0 8], [od 0 7; oh 0 8 1]) = false /\
+  c17_prop_ok ([uh 1; dl 0; sc 0; cb; cs 0; ca 0; qp 0 7 0; uh 2; qr 0 7; ib 0 8], [oh 0 7 1; oh 0 8 2]) = false /\
   (* Handle racing with Connect (stress family): whatever the interleaving, the message sent after both returned goes to h2 *)
   c17_race_prop_ok ([uh 1; dl 0; sc 0], 2, [cb; cs 0; ca 0; ib 0 1; cr 0], [ib 0 2], [oh 0 1 1; oh 0 2 2]) = true /\
   c17_race_prop_ok ([uh 1; dl 0; sc 0], 2, [cb; cs 0; ca 0; ib 0 1; cr 0], [ib 0 2], [oh 0 1 1; oh 0 2 1]) = false.
